@@ -173,6 +173,7 @@ type FnCtx struct {
 	atPrev      map[string]string
 	inl         *inlFrame                  // non-nil while a function literal is executed in place
 	bindIter    *loopInfo                  // loop whose body clause is being bound
+	exitSt      map[*loopInfo]*State       // state in which a loop was last left (for atexit/passed)
 	iterEntFlag map[*loopInfo]map[int]Term // value of iteration-local flags on entry to an inner loop
 	inlSeq      int
 	atFns       map[string]string
@@ -1190,6 +1191,12 @@ func (c *FnCtx) execAll() {
 				for _, lx := range c.loopOrd {
 					if lx.blocks[b] && !lx.blocks[s] {
 						c.loopExit(lx, st, and(st.pc, c.edgeCond(b, i)), b)
+						if c.exitSt == nil {
+							c.exitSt = map[*loopInfo]*State{}
+						}
+						snap := st.clone()
+						snap.pc = c.define(fmt.Sprintf("pc.exit%d", lx.ordinal), "Bool", and(st.pc, c.edgeCond(b, i)))
+						c.exitSt[lx] = snap
 					}
 				}
 			}
